@@ -17,6 +17,8 @@ VARIABLES l, bad, nbad, ntr, cfg
 tvars == <<S, last, l, bad, nbad, ntr, cfg>>
 
 MaxBad == 40
+\* deviations are kept per class (operation, failed checks, deviation flags): a flood of one class never hides another
+KeepBad(bd, op, fl, dv) == Cardinality({b \in bd : b[3] = op /\ b[4] = fl /\ b[5] = dv}) < 6 /\ Cardinality(bd) < 40 * MaxBad
 Flag(cond, name) == IF cond THEN {} ELSE {name}
 
 Result(e) == IF e.res = "hit" THEN e.val ELSE Miss
@@ -73,7 +75,7 @@ TraceNext ==
          /\ l' = l + 1
          /\ ntr' = IF e.op = "reset" THEN ntr + 1 ELSE ntr
          /\ nbad' = IF f = {} THEN nbad ELSE nbad + 1
-         /\ bad' = IF f = {} \/ Cardinality(bad) >= MaxBad THEN bad
+         /\ bad' = IF f = {} \/ ~KeepBad(bad, e.op, f, d) THEN bad
                    ELSE bad \cup {<<e.tid, l, e.op, f, d>>}
 
 TraceSpec == TraceInit /\ [][TraceNext]_tvars
